@@ -362,6 +362,11 @@ class GenElem(Elem):
             tv = [TV.of(v) for v in vals]
             return TV(fn(*[t.e for t in tv]), any(t.neg for t in tv))
 
+        if d in ("int",) and len(args) == 1 and not kw:
+            cv = self.conc(args[0]) if not isinstance(args[0], int) else args[0]
+            if cv is None:
+                self.err("int() of a value that is not constant here", e)
+            return int(cv)
         if d in ("range",):
             if not all(isinstance(z, int) for z in args):
                 self.err("range over non-constant bounds", e)
@@ -404,11 +409,11 @@ class GenElem(Elem):
             if isinstance(v, bool):  # condition without k-dependence: all k or none
                 return WhereIdx(list(range(self.m + 1)) if v else [])
             self.err("np.where on a non-constant condition", e)
-        if short in ("ones", "zeros") and args:
+        if short in ("ones", "zeros", "empty") and args:
             shp = args[0] if isinstance(args[0], tuple) else (args[0],)
             shp = tuple(s for s in shp)
             if len(shp) >= 1 and isinstance(shp[0], int):
-                return KTable([1 if short == "ones" else 0] * shp[0])
+                return KTable([1 if short == "ones" else (sp.Symbol("UNINIT") if short == "empty" else 0)] * shp[0])
             return TV(1 if short == "ones" else 0)
         if short == "sum":
             v = args[0]
